@@ -163,7 +163,10 @@ RUN_RULES = [
      r"    return \[error_msg\]",
      ("raw", "do __r <- directive_instance s;\nlet s := snd __r in\n"
              "let result := match fst __r with DNodes ns => ns | DError level msg => [directive_error msg content position] end in\n{K}")),
-    (r"for i in range\(len\(result\)\):\n    assert [^\n]*", ("skip",)),
+    (r"for i in range\(len\(result\)\):\n    assert [^\n]*\n"
+     r"    if isinstance\(result\[i\], nodes\.Element\) and result\[i\]\.line is None:\n"
+     r"        result\[i\]\.source, result\[i\]\.line = \(self\.document\['source'\], position\)",
+     ("let", "result", "fill_lines position result")),
     (r"return result", ("ret", "Ok (result, s)")),
 ]
 
@@ -257,8 +260,23 @@ Fixpoint render_tok_src (env : Type) (orc : oracles env) (f : nat) (s : st env) 
 """
 
 
+# the locals of each method in order of first binding, under the names the RULES use (alpha-normalisation)
+CANON = {
+    "nested_render_text": ["tokens", "token", "_restore", "current_heading_offset", "current_level_to_section",
+                           "current_root_node"],
+    "nested_parse": ["sm_match_titles"],
+    "run_directive": ["output", "directive_class", "messages", "warn_node", "MystInclude", "option_spec", "parsed", "error",
+                      "_warning", "directive_instance", "state_machine", "state", "result", "msg_node", "exc", "error_msg", "i"],
+    "render_directive": ["position", "nodes_list"],
+    "render_fence": ["parts", "name", "arguments", "options", "k", "v", "lineno_start", "number_lines", "emphasize_lines",
+                     "node"],
+    "render_colon_fence": ["parts", "name", "arguments", "prepended_lines", "linear_token", "container"],
+    "render_substitution": ["position", "variable_context", "env", "rendered", "error", "ast", "references", "n", "cyclic"],
+}
+
+
 def method(tree, cls, name, expect_params):
-    fn = find_method(tree, cls, name)
+    fn = find_method(tree, cls, name, CANON[name])
     got = params(fn)
     if got != expect_params:
         raise Untranslatable(f"{cls}.{name} parameters {got} (expected {expect_params})")
